@@ -452,7 +452,7 @@ def replay_witness(seed, tier, model):
 
 
 # ------------------------------------------------------------------------------------------------------
-def run(ctx):
+def _run(ctx):
     quick = ctx.tier == 'quick'
     status = gm.generate_sample(ctx)
     for k, v in status.items():
@@ -543,3 +543,16 @@ def run(ctx):
                         '(cdf_j, ppf_j) for the marginal-law statement (proved in Spec for the uniform and the constant law)',
                         'statistical residue NOT decided here: recovery of generating marginals/correlation within sampling error; the witness search '
                         'only applies DKW / Hoeffding bands with per-run false-alarm probability <= 1e-9']
+
+
+def run(ctx):
+    """the check proper, then the history/recovery oracle (always, also after a broken translation)"""
+    from .. import extra_oracles
+    try:
+        _run(ctx)
+    finally:
+        try:
+            extra_oracles.gm_recovery(ctx)
+        except Exception as ex:       # the oracle itself must never hide the result of the check proper
+            ctx.obligation('oracle:extra:raised', False, 'correspondence', repr(ex))
+            ctx.violation('oracle:extra:raised:' + type(ex).__name__, 'history/recovery oracle raised ' + repr(ex), {'repro': '# see tools/vf/extra_oracles.py'})
